@@ -79,7 +79,7 @@ func interactionPrograms() []string {
 	}
 	// (D) left-to-right evaluation when a later element modifies what an earlier one read (outer variable / parameter / loop variable)
 	for _, e := range []string{`[v, v++]`, `[v++, v]`, `pair(v, v++)`, `pair(++v, v)`, `[(if true {v} else {0}), v = v + 5, v]`, `{"a": v, "b": v++}`, `v + (v = 10)`, `[v, set(), v]`, `pair(v, set())`, `[a[0], a = [9], a[0]]`,
-		"[0, 1, 2, 3][v:++v]", `"abcd"[v:++v]`, "{1: 1, 2: 2, 3: 3}[v:++v]", "v:++v", "{v: ++v}", "{++v: v}", "[0, 1, 2, 3][v] + ++v", "[[0, 1], [2, 3]][v][--v]", "(v:5)[++v]", "v * ++v - v", "[v, --v, v, ++v]"} {
+		"[0, 1, 2, 3][v:++v]", `"abcd"[v:++v]`, "{1: 1, 2: 2, 3: 3}[v:++v]", "v:++v", "min(v, ++v)", "{v: ++v}", "{++v: v}", "[0, 1, 2, 3][v] + ++v", "[[0, 1], [2, 3]][v][--v]", "(v:5)[++v]", "v * ++v - v", "[v, --v, v, ++v]"} {
 		out = append(out, fmt.Sprintf(`pair = func(x, y) {[x, y]}; v = 1; a = [1, 2]; set = func() {v = 50; a = [7]; v}; f = func() {%s}; println(f(), v)`, e))
 		out = append(out, fmt.Sprintf(`pair = func(x, y) {[x, y]}; a = [1, 2]; f = func(v) {set = func() {v = 50; v}; %s}; println(f(1))`, e))
 		if !strings.Contains(e, "set()") && !strings.Contains(e, "v++") && !strings.Contains(e, "v =") {
